@@ -29,7 +29,7 @@ OPERANDS = [
     (RES, 'combine_simulation_results', 'simresults2', False),
 ]
 # reasoned exemption, premise verified on every run (see _value_inplace_writers)
-CAPTURE_EXEMPT = {('Result.merge', "self._value = other._value"):
+CAPTURE_EXEMPT = {"self._value = other._value":
                   'MISC results replace _value on every update/merge; the only in-place writers of _value are in the '
                   'CHOICETYPE update rule, whose results are merged with += (fresh sum), never by assignment'}
 
@@ -50,8 +50,27 @@ def _value_inplace_writers(ctx: Ctx) -> List[str]:
     return sorted(set(out))
 
 
-def _only_under_misc(fn: FuncInfo, node: ast.AST) -> bool:
-    """node is reachable only when `self._update_type_code == Result.MISCTYPE` (conjunctions allowed, disjunctions not)."""
+def _only_under_misc(model, fn: FuncInfo, node: ast.AST, depth: int = 0) -> bool:
+    """node is reachable only when `self._update_type_code == Result.MISCTYPE` (conjunctions allowed, disjunctions
+    not): under such a test in fn itself, or fn is a private method whose every call site in its class is."""
+    if _under_misc_here(fn, node):
+        return True
+    if depth >= 3 or fn.cls is None or not fn.name.startswith('_') or fn.name.startswith('__') and fn.name.endswith('__'):
+        return False
+    sites = []
+    for g in model.all_functions():
+        if g.cls is None or not model.is_subclass(g.cls, fn.cls) and not model.is_subclass(fn.cls, g.cls):
+            # a call through another receiver would not be seen: any `.name(` outside the class family forfeits the exemption
+            if any(isinstance(n, ast.Call) and isinstance(n.func, ast.Attribute) and n.func.attr == fn.name for n in ast.walk(g.node)):
+                return False
+            continue
+        for n in walk_no_nested(g.node):
+            if isinstance(n, ast.Call) and isinstance(n.func, ast.Attribute) and n.func.attr == fn.name:
+                sites.append((g, n))
+    return bool(sites) and all(_only_under_misc(model, g, n, depth + 1) for g, n in sites)
+
+
+def _under_misc_here(fn: FuncInfo, node: ast.AST) -> bool:
     for n in walk_no_nested(fn.node):
         if isinstance(n, ast.If) and any(node is x for s in n.body for x in ast.walk(s)):
             conj = n.test.values if isinstance(n.test, ast.BoolOp) and isinstance(n.test.op, ast.And) else [n.test]
@@ -125,10 +144,10 @@ def check(ctx: Ctx) -> None:
                 if e.kind != 'capture':
                     continue
                 stmt = norm(e.node)
-                if (e.fn.qualname, stmt) in CAPTURE_EXEMPT:
-                    if premise_ok and _only_under_misc(e.fn, e.node):
+                if stmt in CAPTURE_EXEMPT and e.fn.cls is M.cls('Result'):
+                    if premise_ok and _only_under_misc(M, e.fn, e.node):
                         ctx.note('exempt capture %s in %s: %s (in-place writers of _value: %s)'
-                                 % (stmt, e.fn.qualname, CAPTURE_EXEMPT[(e.fn.qualname, stmt)], inplace))
+                                 % (stmt, e.fn.qualname, CAPTURE_EXEMPT[stmt], inplace))
                         continue
                 caps.append(e)
             ctx.obligation('C06.b', construct, not caps, {'operand': operand, 'capture_events': [e.what for e in caps]})
@@ -142,10 +161,16 @@ def check(ctx: Ctx) -> None:
     _check_merged_once(ctx)
 
 
-def _stored_attrs(nodes, sn: str) -> Set[str]:
+def _stored_attrs(nodes, sn: str, model=None, cls=None, depth: int = 0) -> Set[str]:
+    """Attributes of self written by the statements (through private helper methods of the class too)."""
     out: Set[str] = set()
     for b in nodes:
         for n in ast.walk(b):
+            if model is not None and cls is not None and depth < 4 and isinstance(n, ast.Call) and isinstance(n.func, ast.Attribute):
+                h = is_self_attr(n.func, sn)
+                m = model.lookup_method(cls, h) if h else None
+                if m is not None and m.self_name:
+                    out |= _stored_attrs(m.node.body, m.self_name, model, cls, depth + 1)
             if isinstance(n, (ast.Attribute,)) and isinstance(n.ctx, ast.Store) and is_self_attr(n, sn):
                 out.add(n.attr)
             if isinstance(n, ast.Subscript) and isinstance(n.ctx, ast.Store) and is_self_attr(n.value, sn):
@@ -171,11 +196,21 @@ def _check_stat_sets(ctx: Ctx) -> None:
     # merge: statements outside the type test apply to every branch; the if/else on the type code gives the branches
     common: Set[str] = set()
     branches: List[Set[str]] = []
-    for s in mrg.node.body:
-        if isinstance(s, ast.If) and any(is_self_attr(n, sn) == '_update_type_code' for n in ast.walk(s.test)) and s.orelse:
-            branches = [_stored_attrs(s.body, sn), _stored_attrs(s.orelse, sn)]
+    from ..astutil import always_exits
+    cls = M.cls('Result')
+    body = list(mrg.node.body)
+    for i, s in enumerate(body):
+        if isinstance(s, ast.If) and any(is_self_attr(n, sn) == '_update_type_code' for n in ast.walk(s.test)):
+            if s.orelse:
+                branches = [_stored_attrs(s.body, sn, M, cls), _stored_attrs(s.orelse, sn, M, cls)]
+            elif always_exits(s.body):
+                # `if MISC: ...; return` followed by the additive statements
+                branches = [_stored_attrs(s.body, sn, M, cls), _stored_attrs(body[i + 1:], sn, M, cls)]
+                break
+            else:
+                common |= _stored_attrs([s], sn, M, cls)
         else:
-            common |= _stored_attrs([s], sn)
+            common |= _stored_attrs([s], sn, M, cls)
     if len(branches) != 2:
         ctx.error('C06.c: Result.merge no longer branches on the type code (idiom unknown)')
     eq_attrs, _ = codec.eq_compared_attrs(M, eq)
